@@ -10,9 +10,9 @@ Import ListNotations.
 Close Scope N_scope.
 Open Scope nat_scope.
 
-Notation rwf := (StExprProofs.wf token tok_class op_level).
-Notation rwfpar := (StExprProofs.wfpar token tok_class op_level).
-Notation rwfpars := (StExprProofs.wfpars token tok_class op_level).
+Notation rwf := (StExprProofs.wf token tok_class t_text tok_num op_level).
+Notation rwfpar := (StExprProofs.wfpar token tok_class t_text tok_num op_level).
+Notation rwfpars := (StExprProofs.wfpars token tok_class t_text tok_num op_level).
 Notation rerase := (StExprProofs.erase token t_text tok_num).
 Notation rerasep := (StExprProofs.erasep token t_text tok_num).
 Notation reraseps := (StExprProofs.eraseps token t_text tok_num).
@@ -61,6 +61,9 @@ Definition leaf_ok (l : sleaf) : Prop :=
   match l with
   | LfInt false v => (v < two128)%N      (* the range of the syntax tree's integers *)
   | LfInt true _ => False                (* written '- 5': the recorded gap *)
+  | LfTInt k _ v => fam k = TfInt /\ (v < two128)%N       (* a type that takes an integer constant *)
+  | LfBits k v => fam k = TfBits /\ (v < two128)%N
+  | LfReal _ _ _ => False                (* written by f64's Display: not modelled *)
   | _ => True
   end.
 
@@ -79,7 +82,7 @@ with rsel : sel sexpr -> Prop :=
   | RSIndex es : es <> [] -> Forall rexpr es -> rsel (SIndex es).
 
 (* ---- token facts ---- *)
-Lemma class_kwt k c : kind_class k = c -> c <> CConst CkInt -> forall tx, tok_class (tkk k tx) = c.
+Lemma class_kwt k c : kind_class k = c -> checked_const c = false -> forall tx, tok_class (tkk k tx) = c.
 Proof. intros H Hc tx. rewrite class_by_kind; cbn [t_kind tkk]; rewrite H; [reflexivity | exact Hc]. Qed.
 
 Lemma ws1_triv : rtriv ws1.
@@ -101,6 +104,9 @@ Lemma op_tok_bop o : bop_of token tok_class op_level (op_tok o) = Some (op_level
 Proof. destruct o; reflexivity. Qed.
 Lemma un_tok_uop o : uop_of token tok_class (un_tok o) = Some o.
 Proof. destruct o; reflexivity. Qed.
+
+Lemma tykw_tok_class k : tok_class (tykw_tok k) = CTyKw k.
+Proof. destruct k; reflexivity. Qed.
 
 Lemma id_tok_class n : tok_class (id_tok n) = CId.
 Proof. reflexivity. Qed.
@@ -130,8 +136,8 @@ Proof. reflexivity. Qed.
 Lemma sp_of_var n ss : sp_of (XVar n ss) = SVar token (id_tok n) (sels_of ss).
 Proof. reflexivity. Qed.
 
-Notation rwfss := (StExprProofs.wfss token tok_class op_level).
-Notation rwfsi := (StExprProofs.wfsi token tok_class op_level).
+Notation rwfss := (StExprProofs.wfss token tok_class t_text tok_num op_level).
+Notation rwfsi := (StExprProofs.wfsi token tok_class t_text tok_num op_level).
 Notation rerasess := (StExprProofs.erasess token t_text tok_num).
 Notation rerasesi := (StExprProofs.erasesi token t_text tok_num).
 
@@ -225,11 +231,17 @@ Lemma sp_of_spec0 : forall e, rexpr e -> expr_good e.
 Proof.
   induction e as [l|o l r IHl IHr|o x IHx|f ps IHps|n ss IHss] using sexpr_ind2; intros He; inversion He; subst.
   - (* leaves *)
-    unfold expr_good. destruct l as [[|] v|b|c|n]; cbn [leaf_ok] in *; try contradiction; cbn [sp_of leaf_sp].
+    unfold expr_good. destruct l as [[|] v|b|c|ty sg lit|k neg v|k v|n]; cbn [leaf_ok] in *; try contradiction; cbn [sp_of leaf_sp].
     + match goal with H : (_ < two128)%N |- _ => destruct (int_tok_ok v H) as (Hc & Hn) end.
       split; [intro q; exact Hc|]. cbn. unfold leaf_of. rewrite Hn. reflexivity.
     + split; [|destruct b; reflexivity]. intro q. cbn. destruct b; repeat split; reflexivity.
     + split; [intro q; apply str_tok_class|]. cbn [StExprProofs.erase]. rewrite str_tok_leaf. reflexivity.
+    + match goal with H : _ /\ (_ < two128)%N |- _ => destruct H as (Hf & Hv) end. destruct (int_tok_ok v Hv) as (Hc & Hn).
+      split; [|reflexivity]. intro q. cbn [StExprProofs.wf]. split; [apply tykw_tok_class|]. split; [reflexivity|].
+      unfold typed_leaf. rewrite Hf, Hc, Hn. destruct neg; [split; reflexivity | reflexivity].
+    + match goal with H : _ /\ (_ < two128)%N |- _ => destruct H as (Hf & Hv) end. destruct (int_tok_ok v Hv) as (Hc & Hn).
+      split; [|reflexivity]. intro q. cbn [StExprProofs.wf]. split; [apply tykw_tok_class|]. split; [reflexivity|].
+      unfold typed_leaf. rewrite Hf, Hc, Hn. reflexivity.
     + split; [|reflexivity]. intro q. split; [reflexivity | apply ws1_triv].
   - (* ( l op r ) *)
     match goal with Hl : rexpr l, Hr : rexpr r |- _ => destruct (IHl Hl) as (Wl & El); destruct (IHr Hr) as (Wr & Er) end.
@@ -248,7 +260,7 @@ Proof.
     + (* a leaf: negative constants are excluded *)
       split; [|cbn [StExprProofs.erase]; rewrite Ex; reflexivity]. intro q.
       cbn [StExprProofs.wf]. split; [apply un_tok_uop|]. split; [apply ws1_triv|].
-      inversion Rx; subst. destruct l as [[|] v|b|c|n]; cbn [leaf_ok] in *; try contradiction; exact (Wx 0).
+      inversion Rx; subst. destruct l as [[|] v|b|c|ty sg lit|k neg v|k v|n]; cbn [leaf_ok] in *; try contradiction; exact (Wx 0).
     + split; [|cbn [StExprProofs.erase]; rewrite Ex; reflexivity]. intro q.
       cbn [StExprProofs.wf]. split; [apply un_tok_uop|]. split; [apply ws1_triv|]. exact (Wx 0).
     + (* nested unary: in parentheses *)
@@ -285,8 +297,8 @@ Lemma sp_of_spec : forall e, rexpr e -> forall q, rwf q (sp_of e) /\ rerase (sp_
 Proof. intros e He q. destruct (sp_of_spec0 e He) as (W & E). split; [exact (W q) | exact E]. Qed.
 
 (* ---- statements ---- *)
-Notation rwf_s := (wf_s token tok_class op_level).
-Notation rwf_m := (wf_m token tok_class op_level).
+Notation rwf_s := (wf_s token tok_class t_text tok_num op_level).
+Notation rwf_m := (wf_m token tok_class t_text tok_num op_level).
 Notation rerase_s := (erase_s token t_text tok_num).
 Notation rerase_m := (erase_m token t_text tok_num).
 Notation rabs := (absorbs token).
@@ -479,7 +491,7 @@ Qed.
 Lemma eis_sp_spec : forall l lead wt, rtriv lead -> eis_cond l ->
   Forall (fun cb : sexpr * list stmt => Forall stmt_good (snd cb)) l ->
   (l <> [] -> last_gap l = [] -> wt = []) ->
-  wf_eis token tok_class op_level wt (eis_sp ss_of lead l) /\ erase_eis token t_text tok_num (eis_sp ss_of lead l) = l.
+  wf_eis token tok_class t_text tok_num op_level wt (eis_sp ss_of lead l) /\ erase_eis token t_text tok_num (eis_sp ss_of lead l) = l.
 Proof.
   induction l as [|[c b] l IH]; intros lead wt Hlead HC HG Hwt.
   - rewrite eis_sp_nil. split; [exact I | reflexivity].
@@ -552,7 +564,7 @@ Proof. destruct b; repeat constructor. Qed.
 Lemma cs_sp_spec : forall l lead wt, rtriv lead -> cs_cond l ->
   Forall (fun g : list csel * list stmt => Forall stmt_good (snd g)) l ->
   (l <> [] -> last_gap_cs l = [] -> wt = []) ->
-  wf_cs token tok_class op_level wt (cs_sp ss_of lead l) /\ erase_cs token t_text tok_num (cs_sp ss_of lead l) = l.
+  wf_cs token tok_class t_text tok_num op_level wt (cs_sp ss_of lead l) /\ erase_cs token t_text tok_num (cs_sp ss_of lead l) = l.
 Proof.
   induction l as [|[ss b] l IH]; intros lead wt Hlead HC HG Hwt.
   - rewrite cs_sp_nil. split; [exact I | reflexivity].
@@ -613,12 +625,12 @@ Proof.
     destruct (eis_sp_spec eis nl1 (el_lead token el w4) nl1_triv Re Ge) as (We & Ee).
     { intros _ Hg. rewrite Hwt. exact Hg. }
     assert (Hw4 : rtriv w4) by (unfold w4; destruct els; [apply last_gap_triv | apply nl1_triv]).
-    assert (Wel : wf_el token tok_class op_level w4 el /\ erase_el token t_text tok_num el = els).
+    assert (Wel : wf_el token tok_class t_text tok_num op_level w4 el /\ erase_el token t_text tok_num el = els).
     { unfold el. destruct els as [|x l']; [split; [exact I | reflexivity]|].
       destruct (list_sp_spec x l' (Forall_inv Gl) (Forall_inv_tail Gl)) as (W & E & A). split; [|exact E].
       cbn [wf_el]. split; [apply last_gap_triv|]. split; [reflexivity|]. split; [apply nl1_triv|]. split; [exact W|]. rewrite A. discriminate. }
     destruct Wel as (Wel & Eel).
-    assert (Wb : wf_b token tok_class op_level (match body with [] => BNone token | x :: l' => BSome token (list_sp ss_of x l') end) /\
+    assert (Wb : wf_b token tok_class t_text tok_num op_level (match body with [] => BNone token | x :: l' => BSome token (list_sp ss_of x l') end) /\
                  erase_b token t_text tok_num (match body with [] => BNone token | x :: l' => BSome token (list_sp ss_of x l') end) = body /\
                  babsorbs token (match body with [] => BNone token | x :: l' => BSome token (list_sp ss_of x l') end) = false).
     { destruct body as [|x l']; [repeat split|].
@@ -653,7 +665,7 @@ Proof.
     destruct (cs_sp_spec gs nl1 (el_lead token el w4) nl1_triv Rg Gg) as (Wg & Eg).
     { intros _ Hg. rewrite Hwt. exact Hg. }
     assert (Hw4 : rtriv w4) by (unfold w4; destruct els; [apply last_gap_cs_triv | apply nl1_triv]).
-    assert (Wel : wf_el token tok_class op_level w4 el /\ erase_el token t_text tok_num el = els).
+    assert (Wel : wf_el token tok_class t_text tok_num op_level w4 el /\ erase_el token t_text tok_num el = els).
     { unfold el. destruct els as [|x l']; [split; [exact I | reflexivity]|].
       destruct (list_sp_spec x l' (Forall_inv Gl) (Forall_inv_tail Gl)) as (W & E & A). split; [|exact E].
       cbn [wf_el]. split; [apply last_gap_cs_triv|]. split; [reflexivity|]. split; [apply nl1_triv|]. split; [exact W|]. rewrite A. discriminate. }
